@@ -1,8 +1,9 @@
-//go:build verif
+//go:build verif && (p_all || p_c02)
 
 package props
 
 import (
+	"bytes"
 	"fmt"
 	"math/big"
 
@@ -596,4 +597,28 @@ func c02RunAsArgument(c *mon.Ctx, cs *c02Case, a *secp256k1.Element, pa oracle.P
 	}
 
 	c.Seen(cs.Op, cs.B, cs.Move, cs.Observe)
+}
+
+func c02RunConc(c *mon.Ctx, seed uint64) {
+	r := concRng("C02", seed)
+
+	var jobs []func() string
+
+	for i := 0; i < concJobs; i++ {
+		p, q := gen.Fresh(r), gen.Fresh(r)
+		a, b := mon.Elem(p.P, gen.DrawRepr(r, false)), mon.Elem(q.P, gen.DrawRepr(r, false))
+		wAdd, wSub, wDbl, wNeg := oracle.EncC(oracle.Add(p.P, q.P)), oracle.EncC(oracle.Sub(p.P, q.P)), oracle.EncC(oracle.Dbl(p.P)), oracle.EncC(oracle.Neg(p.P))
+		jobs = append(jobs, func() string {
+			if !bytes.Equal(a.Copy().Add(b).Encode(), wAdd) || !bytes.Equal(a.Copy().Subtract(b).Encode(), wSub) ||
+				!bytes.Equal(a.Copy().Double().Encode(), wDbl) || !bytes.Equal(a.Copy().Negate().Encode(), wNeg) {
+				return "Add/Subtract/Double/Negate result differs from the group law"
+			}
+
+			return ""
+		})
+	}
+
+	if c.RunConcurrent("Add / Subtract / Double / Negate", "grouplaw-concurrent", 500, jobs) {
+		c.Seen("conc", seed)
+	}
 }
